@@ -20,6 +20,9 @@ pub enum Op {
     BreakGrammar(usize),
     BreakLexer,
     Build,
+    /// a source file that cannot be read as text: 0/1 = the grammar (not UTF-8 / deleted),
+    /// 2/3 = the lexer (not UTF-8 / deleted)
+    Unreadable(usize),
     /// the grammar is edited and its file time is exactly that of the parser module generated
     /// before (coarse timestamps, a tool that restores times, an edit within one clock tick)
     EditGrammarAtOutputTime(usize),
@@ -246,7 +249,7 @@ impl Prop for C18 {
         // or to another value), so that "set, build, set back, build" is common
         let mut touched_opts: Vec<usize> = vec![];
         for _ in 0..n {
-            let op = match ch.weighted(&[4, 2, 1, 4, 2, 1, 3, 1]) {
+            let op = match ch.weighted(&[4, 2, 1, 4, 2, 1, 3, 1, 1]) {
                 0 => Op::EditGrammar(ch.pick(NGRAMMARS)),
                 1 => Op::EditLexer(ch.pick(LEXERS.len())),
                 2 => Op::Touch,
@@ -264,7 +267,8 @@ impl Prop for C18 {
                 4 => Op::BreakGrammar(ch.pick(BROKEN_GRAMMARS.len())),
                 5 => Op::BreakLexer,
                 6 => Op::Build,
-                _ => Op::EditGrammarAtOutputTime(ch.pick(NGRAMMARS)),
+                7 => Op::EditGrammarAtOutputTime(ch.pick(NGRAMMARS)),
+                _ => Op::Unreadable(ch.pick(4)),
             };
             ops.push(op);
             if ch.chance(1, 2) {
@@ -277,13 +281,13 @@ impl Prop for C18 {
         serde_json::to_value(Case { ops, probe_one_call_stale_parser: false, probe_test_files_not_rerun: false }).unwrap()
     }
     fn rule(&self) -> String {
-        "Histories of 1-8 operations (each possibly followed by Build, always ending in Build) over {EditGrammar(8 variants, one with 260 tokens that u8 storage refuses by panic, one with %grmtools{test_files} and a test input next to the grammar), EditGrammarAtOutputTime (an edit whose file time equals that of the parser module generated before), EditLexer(6 variants, two lacking tokens some grammars use), Touch, SetOption(18 builder options incl. mod names, visibility (all variants, pub(in ..) with two different paths), edition, recoverer, yacckind, serialisation format, error_on_conflicts, warnings flags, lexer flags, strictness about tokens missing from the lexer / from the parser, the flow: two builders in turn or the one-call CTLexerBuilder::lrpar_config, grammar_path switched between two files of the same leaf name in different directories, grammar_path naming the file through a symbolic link, and the storage type u32/u16/u8 of the builders' lexer types), BreakGrammar(4 kinds: syntax error, unknown rule, broken %grmtools section, unexpected conflicts), BreakLexer, Build}. Every Build runs the real CTParserBuilder/CTLexerBuilder in a process of its own; file times come from a logical clock. Oracle after every Build: successful => parser and lexer modules byte-identical (timestamp masked) to a clean build of the same sources/settings into an empty directory; nothing changed since the last successful build => regenerated()==false and files untouched; grammar text or a parser-relevant option changed => regenerated()==true; failed => no generated file from the earlier sources left at the output path. Evaluation = one Build step. Non-trivial: a change between two builds or a failing build after a successful one; distinct by hash(history).".into()
+        "Histories of 1-8 operations (each possibly followed by Build, always ending in Build) over {EditGrammar(8 variants, one with 260 tokens that u8 storage refuses by panic, one with %grmtools{test_files} and a test input next to the grammar), EditGrammarAtOutputTime (an edit whose file time equals that of the parser module generated before), EditLexer(6 variants, two lacking tokens some grammars use), Touch, SetOption(18 builder options incl. mod names, visibility (all variants, pub(in ..) with two different paths), edition, recoverer, yacckind, serialisation format, error_on_conflicts, warnings flags, lexer flags, strictness about tokens missing from the lexer / from the parser, the flow: two builders in turn or the one-call CTLexerBuilder::lrpar_config, grammar_path switched between two files of the same leaf name in different directories, grammar_path naming the file through a symbolic link, and the storage type u32/u16/u8 of the builders' lexer types), BreakGrammar(4 kinds: syntax error, unknown rule, broken %grmtools section, unexpected conflicts), BreakLexer, Unreadable (the grammar or the lexer file is not UTF-8, or is deleted), Build}. Every Build runs the real CTParserBuilder/CTLexerBuilder in a process of its own; file times come from a logical clock. Oracle after every Build: successful => parser and lexer modules byte-identical (timestamp masked) to a clean build of the same sources/settings into an empty directory; nothing changed since the last successful build => regenerated()==false and files untouched; grammar text or a parser-relevant option changed => regenerated()==true; failed => no generated file from the earlier sources left at the output path. Evaluation = one Build step. Non-trivial: a change between two builds or a failing build after a successful one; distinct by hash(history).".into()
     }
     fn assumptions(&self) -> Vec<String> {
         vec!["a Touch (same bytes, newer time) may or may not regenerate".into()]
     }
     fn required_classes(&self, _tier: Tier) -> Vec<&'static str> {
-        vec!["build-ok", "build-failed", "unchanged-rebuild", "change-between-builds", "fail-after-success", "option-change", "grammar-edited-at-output-time"]
+        vec!["build-ok", "build-failed", "unchanged-rebuild", "change-between-builds", "fail-after-success", "option-change", "grammar-edited-at-output-time", "source-unreadable"]
     }
     fn evaluate(&self, case: &Value) -> Outcome {
         let case: Case = serde_json::from_value(case.clone()).unwrap();
@@ -352,6 +356,29 @@ impl Prop for C18 {
                         None => set_mtime(&gps[gdir], clock),
                     }
                     touched = true;
+                }
+                Op::Unreadable(k) => {
+                    // the "text" of such a file is a marker no real source equals
+                    if *k < 2 {
+                        gtext = format!("<unreadable grammar {k}>");
+                        gtexts[gdir] = gtext.clone();
+                        if *k == 0 {
+                            std::fs::write(&gps[gdir], [0xffu8, 0xfe, b'%', b'%', b'\n']).unwrap();
+                            set_mtime(&gps[gdir], clock);
+                        } else {
+                            let _ = std::fs::remove_file(&gps[gdir]);
+                        }
+                        touched = true;
+                    } else {
+                        ltext = format!("<unreadable lexer {k}>");
+                        if *k == 2 {
+                            std::fs::write(&lp, [0xffu8, 0xfe, b'%', b'%', b'\n']).unwrap();
+                            set_mtime(&lp, clock);
+                        } else {
+                            let _ = std::fs::remove_file(&lp);
+                        }
+                    }
+                    o.class("source-unreadable");
                 }
                 Op::BreakGrammar(k) => {
                     gtext = BROKEN_GRAMMARS[*k].to_string();
@@ -552,7 +579,7 @@ impl Prop for C18 {
                                     // the lexer is parsed before the parser builder is even
                                     // configured: with an invalid .l file the parser module of
                                     // the earlier grammar stays (known finding, see DESIGN.md)
-                                    let lexer_invalid = ltext == BROKEN_LEXER;
+                                    let lexer_invalid = ltext == BROKEN_LEXER || ltext.starts_with("<unreadable lexer");
                                     if lexer_invalid && !case.probe_one_call_stale_parser {
                                         o.class("known:one-call-lexer-invalid-leaves-parser-module");
                                     } else {
